@@ -35,6 +35,8 @@ type redisWorld struct {
 	conns   []net.Conn
 	nconn   int
 	cmds    int64
+	refuse  string // != "": single commands are answered with this error reply
+	refused int64
 }
 
 func newRedisWorld(e *sim.Env, c *sim.Case) (*redisWorld, error) {
@@ -145,6 +147,7 @@ func indexCRLF(b []byte, from int) int {
 func (rw *redisWorld) pumpC2S(id int, from, to net.Conn) {
 	buf := make([]byte, 65536)
 	var acc []byte
+	inTx := false
 	for {
 		n, err := from.Read(buf)
 		if err != nil {
@@ -155,6 +158,11 @@ func (rw *redisWorld) pumpC2S(id int, from, to net.Conn) {
 			return
 		}
 		acc = append(acc, buf[:n]...)
+		first := true
+		single := false
+		if _, rest, _, ok := parseCommand(acc); ok && len(rest) == 0 {
+			single = true // one command travels alone: the client waits for its reply
+		}
 		for {
 			cmd, rest, name, ok := parseCommand(acc)
 			if !ok {
@@ -162,11 +170,31 @@ func (rw *redisWorld) pumpC2S(id int, from, to net.Conn) {
 			}
 			acc = append([]byte(nil), rest...)
 			zsimrt.Yield("net:c2s:" + name)
-			if rw.latency > 0 {
-				// a network that takes its time: the world moves on while a command travels
+			if rw.refuse != "" && single && !inTx && name != "MULTI" && name != "EXEC" && name != "WATCH" && name != "UNWATCH" && name != "DISCARD" {
+				// the server is up but refuses to work: an error reply instead of an answer.
+				// Only commands that travel alone are refused (their reply is read before anything
+				// else is sent, so replies stay aligned); pipelines and transactions pass
+				rw.e.Logf("redis conn%d <- %s refused", id, name)
+				rw.refused++
+				if _, err := from.Write([]byte("-" + rw.refuse + "\r\n")); err != nil {
+					return
+				}
+				continue
+			}
+			switch name {
+			case "MULTI":
+				inTx = true
+			case "EXEC", "DISCARD":
+				inTx = false
+			}
+			if rw.latency > 0 && first {
+				// a network that takes its time: the world moves on while a packet travels. Commands
+				// written in one go (a pipeline, MULTI ... EXEC) travel together: the latency is paid
+				// once per burst, whatever the number of commands in it
 				rw.e.FaultFired("network_latency")
 				zsimrt.Sleep("net:latency", rw.latency)
 			}
+			first = false
 			rw.syncClock()
 			rw.cmds++
 			rw.e.Logf("redis conn%d <- %s", id, name)
@@ -180,15 +208,28 @@ func (rw *redisWorld) pumpC2S(id int, from, to net.Conn) {
 }
 
 func (rw *redisWorld) pumpS2C(id int, from, to net.Conn) {
-	buf := make([]byte, 65536)
+	// the socket buffer of the connection: what the server has written waits here until the
+	// client reads it (net.Pipe has no buffer of its own - a client that writes a long pipeline
+	// before reading any reply would block the server, and through it itself, for ever)
+	q := make(chan []byte, 1<<16)
+	go func() {
+		buf := make([]byte, 65536)
+		for {
+			n, err := from.Read(buf)
+			if err != nil {
+				close(q)
+				return
+			}
+			q <- append([]byte(nil), buf[:n]...)
+		}
+	}()
 	for {
-		n, err := from.Read(buf)
-		if err != nil {
+		chunk, ok := <-q
+		if !ok {
 			zsimrt.Yield("net:s2c:close")
 			to.Close()
 			return
 		}
-		chunk := append([]byte(nil), buf[:n]...)
 		zsimrt.Yield("net:s2c")
 		if _, err := to.Write(chunk); err != nil {
 			zsimrt.Yield("net:s2c:close")
